@@ -523,3 +523,44 @@ func (v *V) With2(tag string) *V {
 	}
 	return c
 }
+
+// EqualExact is Equal plus agreement on the sign of every zero (Equal, like ==, takes -0 for +0).
+func EqualExact(a, b *V) bool { return Equal(a, b) && zeroSigns(a) == zeroSigns(b) }
+
+func zeroSigns(v *V) string {
+	if v == nil || v.T == nil {
+		return ""
+	}
+	out := ""
+	switch v.T.Base().Kind {
+	case Float32, Float64:
+		if v.F == 0 {
+			if math.Signbit(v.F) {
+				return "-"
+			}
+			return "+"
+		}
+	case Record:
+		var ks []string
+		for k := range v.Fields {
+			ks = append(ks, k)
+		}
+		sort.Strings(ks)
+		for _, k := range ks {
+			out += zeroSigns(v.Fields[k])
+		}
+	case Union:
+		out += zeroSigns(v.Mem)
+	case Array:
+		for _, it := range v.Items {
+			out += zeroSigns(it)
+		}
+	case Map:
+		ks := append([]string{}, v.Keys...)
+		sort.Strings(ks)
+		for _, k := range ks {
+			out += zeroSigns(v.Ent[k])
+		}
+	}
+	return out
+}
